@@ -391,7 +391,10 @@ fn docs_url_probe(rep: &mut Report, thorough: bool) {
 /// Locality with traits and callbacks in play (Kotlin and C generate code for traits): adding a type nothing refers
 /// to — in the same bridge module, in one of its own, before or after the others — leaves every other file as it was.
 fn trait_locality_probe(rep: &mut Report) {
-    let base_items = "    pub struct Sample { pub value: i32, pub weight: i32 }\n    pub trait Listener {\n        fn on_value(&self, v: i32) -> i32;\n        fn on_sample(&self, s: Sample) -> i32;\n        fn on_done(&self);\n    }\n    pub struct Dispatcher { pub count: i32 }\n    impl Dispatcher {\n        pub fn dispatch(l: impl Listener, v: i32) -> i32 { l.on_done(); l.on_value(v) }\n    }\n    #[diplomat::opaque]\n    pub struct Widget { held: Box<dyn Fn(i32) -> i32> }\n    impl Widget {\n        #[diplomat::attr(auto, constructor)]\n        pub fn new(transform: impl Fn(i32) -> i32 + 'static) -> Box<Self> { Box::new(Self { held: Box::new(transform) }) }\n        pub fn apply(&self, v: i32) -> i32 { (self.held)(v) }\n    }\n    pub enum Level { Low, High }\n    impl Level {\n        pub fn bump(self) -> Level { Level::High }\n    }\n    pub enum Sparse { One = 1, Nine = 9 }\n";
+    // once with enums (generated after the other types: what they inherit) and once without (what the traits inherit)
+    for with_enums in [false, true] {
+    let enums = if with_enums { "    pub enum Level { Low, High }\n    impl Level {\n        pub fn bump(self) -> Level { Level::High }\n    }\n    pub enum Sparse { One = 1, Nine = 9 }\n" } else { "" };
+    let base_items = &format!("{}{enums}", "    pub struct Sample { pub value: i32, pub weight: i32 }\n    pub trait Listener {\n        fn on_value(&self, v: i32) -> i32;\n        fn on_sample(&self, s: Sample) -> i32;\n        fn on_done(&self);\n    }\n    pub struct Dispatcher { pub count: i32 }\n    impl Dispatcher {\n        pub fn dispatch(l: impl Listener, v: i32) -> i32 { l.on_done(); l.on_value(v) }\n    }\n    #[diplomat::opaque]\n    pub struct Widget { held: Box<dyn Fn(i32) -> i32> }\n    impl Widget {\n        #[diplomat::attr(auto, constructor)]\n        pub fn new(transform: impl Fn(i32) -> i32 + 'static) -> Box<Self> { Box::new(Self { held: Box::new(transform) }) }\n        pub fn apply(&self, v: i32) -> i32 { (self.held)(v) }\n    }\n");
     let base = format!("#[diplomat::bridge]\nmod ffi {{\n{base_items}}}\n");
     let variants: [(&str, String); 6] = [
         ("opaque without callbacks in its own module after", format!("{base}#[diplomat::bridge]\nmod zz {{\n    #[diplomat::opaque]\n    pub struct Zone;\n    impl Zone {{ pub fn get(&self) -> u8 {{ 0 }} }}\n}}\n")),
@@ -428,6 +431,7 @@ fn trait_locality_probe(rep: &mut Report) {
             }
         }
     }
+}
 }
 
 pub fn child(args: &[String]) {
